@@ -200,37 +200,13 @@ func TestEveryConstructIndividually(t *testing.T) {
 	}
 }
 
-// predefs is the harness's own copy of the documented predefined patterns, as trees.
-func predefs() map[string]*ref.Pat {
-	lit := func(r rune) *ref.Pat { return &ref.Pat{K: "lit", R: r} }
-	rng := func(a, b rune) *ref.Pat { return &ref.Pat{K: "rng", R: a, R2: b} }
-	br := func(items ...*ref.Pat) *ref.Pat { return &ref.Pat{K: "br", Items: items} }
-	cat := func(s ...*ref.Pat) *ref.Pat { return &ref.Pat{K: "cat", Subs: s} }
-	alt := func(s ...*ref.Pat) *ref.Pat { return &ref.Pat{K: "alt", Subs: s} }
-	grp := func(s *ref.Pat) *ref.Pat { return &ref.Pat{K: "grp", Subs: []*ref.Pat{s}} }
-	q := func(s *ref.Pat, min, max int) *ref.Pat { return &ref.Pat{K: "q", Subs: []*ref.Pat{s}, Min: min, Max: max} }
-	strBody := alt(br(lit(0x21), rng(0x23, 0x5B), rng(0x5D, 0x7E)), cat(lit('\\'), br(rng(0x21, 0x7E))))
-	return map[string]*ref.Pat{
-		"$WS":     br(lit(0x09), lit(0x0A), lit(0x0D), lit(0x20)),
-		"$DIGIT":  br(rng('0', '9')),
-		"$LETTER": br(rng('A', 'Z'), rng('a', 'z')),
-		"$ID":     cat(br(rng('A', 'Z'), rng('a', 'z'), lit('_')), q(br(rng('0', '9'), rng('A', 'Z'), rng('a', 'z'), lit('_')), 0, -1)),
-		"$NUMBER": cat(q(lit('-'), 0, 1), q(br(rng('0', '9')), 1, -1), q(grp(cat(lit('.'), q(br(rng('0', '9')), 1, -1))), 0, 1)),
-		"$STRING": cat(lit('"'), q(grp(strBody), 1, -1), lit('"')),
-		"$COMMENT": alt(
-			cat(grp(alt(lit('#'), cat(lit('/'), lit('/')))), q(br(lit(0x09), rng(0x20, 0x7E)), 0, -1)),
-			cat(lit('/'), lit('*'), q(br(lit(0x09), lit(0x0A), lit(0x0D), rng(0x20, 0x7E)), 0, -1), lit('*'), lit('/')),
-		),
-	}
-}
-
 func TestPredefinedPatterns(t *testing.T) {
 	rec.Begin(t)
 	rec.Rule(rule)
 	if rec.Shard() != 0 {
 		t.Skip("seed independent: shard 0 only")
 	}
-	want := predefs()
+	want := gen.PredefPats()
 	if len(ebnfparser.Predefs) != len(want) {
 		rec.Fail(t, "predef-table", map[string]any{"have": len(ebnfparser.Predefs)}, "the table of predefined patterns has %d entries, the documentation lists %d names", len(ebnfparser.Predefs), len(want))
 	}
